@@ -327,3 +327,12 @@ Definition go_nmap_order_check {K V : Type} (eqb : K -> K -> bool) (m : go_nmap 
 (* every key of [after] was a key of [before] *)
 Definition go_nmap_nogrow_check {K V : Type} (eqb : K -> K -> bool) (before after : go_nmap K V) : res unit :=
   if forallb (fun e => go_nmap_has eqb before (fst e)) (go_nmap_entries after) then Ok tt else Panic PMapGrew.
+
+(* ---- uint64 ---- *)
+(* uint64 arithmetic (+ - * << and conversions to uint64) wraps modulo 2^64 *)
+Definition go_u64 (z : Z) : Z := z mod 18446744073709551616.
+(* bits.LeadingZeros64 of a 64-bit word: 64 minus its bit length *)
+Definition go_lz64 (p : Z) : Z := if p <=? 0 then 64 else 63 - Z.log2 p.
+
+Lemma go_u64_small z : 0 <= z < 18446744073709551616 -> go_u64 z = z.
+Proof. intros H. unfold go_u64. apply Z.mod_small. exact H. Qed.
